@@ -30,6 +30,29 @@ CHECKS = {
                 ref="DESIGN.md section 5 C16"),
 }
 
+# additions of validation round 5 (DESIGN.md 10.4 a5), appended to the level text of the check
+ROUND5 = {
+    "C01": "Also: wide strings whose 64-bit words resonate with the reduction constant 2^256 mod p; Equal/IsZero operands whose stored forms differ in one limb holding a word with related 32-bit halves.",
+    "C02": "Also: every limb independently below / equal / above the limb of (n-1)/2 (also cut to 128 bits); half-word-structured distances to (n-1)/2.",
+    "C04": "Also: halves built from structured limbs (zero / all-ones limb, limbs next to those of (n-1)/2), per-limb relations to the half order, scalars around 2^128 and around 2^383/g, 2^384/g; a degenerate process-wide system entropy stream.",
+    "C05": "Also: children started under 32 different GOMAXPROCS values, one of which runs every single-byte scalar through both fixed-base entry points and is compared with the reference table; Public() as the first accessor of a fresh key; a degenerate system entropy stream.",
+    "C06": "Also: valid encodings re-cut (prefix dropped or doubled, front/back removed or extended, wrong prefix for the length) and wrapped in DER OCTET STRING / BIT STRING / SEQUENCE.",
+    "C07": "Also: undefined encoding selectors that are negative or truncate to a defined one, with every wire form of the signature.",
+    "C08": "Also: the full matrix of 20 hash selectors x 20 digest lengths x SelfVerify x options form (signed iff the length is exactly the size of the selected hash).",
+    "C09": "Also: readers that scribble over the spare capacity behind the requested bytes, and readers that change the caller's digest buffer during the read (one nonce must never sign two digests).",
+    "C10": "Also: ECDH, key derivation and ScalarMult under a never-failing but degenerate crypto/rand.Reader (zeros, ones, p, n, patterns); DER-wrapped points.",
+    "C11": "Also: valid signatures whose recovery multipliers u2 = s/r and u1 = -e/r are steered into the GLV windows.",
+    "C12": "Also: 16 identifiers of the EC / X9 family as algorithm OID, the point inside another DER wrapper.",
+    "C13": "Also: the verifying key object built through every constructor from either lift of x.",
+    "C14": "Also: signing under a degenerate system entropy stream.",
+    "C15": "Also: uniform strings whose words resonate with the reduction constant (a 2^-32 carry of a 48-byte fast path).",
+    "C16": "Also: list-wide scalar families (equal, small, digit-poor, single digit) on lists up to 300; mismatched lengths as fronts of longer backing arrays.",
+    "C17": "Also, below the source level: the production build of the same operation table is single-stepped with ptrace; the program-counter sequence of every traced call (library, standard library, harness closure; Go runtime stepped over, morestack detours cut out) must be identical for all secrets of one operation and published-output shape - quick: predicates, selects, key Equal, decoders for ~100 secrets including secrets whose stored limbs agree with the compared operand on 1..3 limbs, one encoder; thorough: the expensive operations for 2..8 secrets each.",
+    "C18": "Also: the receiver placed deep inside long operand lists (64, 65, the end); RecoverPublicKey as a constructor (identity, bad id, r = 0, s = 0).",
+    "C19": "Also: word-level predicates on values with related 32-bit halves, compared across the amd64 and 386 builds.",
+    "C20": "Also: input churn - 16 goroutines decoding from a sliding window over 96 distinct inputs through five entry points, every result compared with the reference model.",
+}
+
 PENDING_REASON = "not claimed yet: monitor under construction in this round (the technique applies; see DESIGN.md section 5)"
 
 
@@ -45,6 +68,11 @@ def main():
     if os.path.exists(p):
         extra = json.load(open(p))
     CHECKS.update(extra.get("checks", {}))
+    for pid, add in ROUND5.items():
+        if pid in CHECKS and add not in CHECKS[pid]["text"]:
+            CHECKS[pid] = dict(CHECKS[pid], text=CHECKS[pid]["text"] + " " + add)
+    if "C17" in CHECKS and "ptrace" not in CHECKS["C17"]["tech"]:
+        CHECKS["C17"] = dict(CHECKS["C17"], tech=CHECKS["C17"]["tech"] + "; instruction-level trace equivalence of the production build under a ptrace single-stepper (program-counter sequence of every traced call, runtime internals stepped over)")
     checks, na = [], []
     for pr in props:
         pid = pr["id"]
